@@ -137,6 +137,7 @@ func ruleW1(p *Prog, r *Report) {
 func rulesAllowedSet(p *Prog, r *Report) {
 	r.Rule("S1", "sufficient", 1, "each allowed entry becomes a node independently of the others: the node stored at position i is parse(list[i]) and nothing else is carried around the loop")
 	r.Rule("S3", "sufficient", 1, "between construction and use the allowed-node slice is only permuted or compacted in place (sort.Slice, copying an element of the slice over another element of the same slice), and the compaction skips an element only when its canonical text equals its neighbour's")
+	rulePrinterVerbatim(p, r, "S5")
 	qz := &quantizer{p: p, elemVar: map[ssa.Value]string{}, stop: map[string]bool{"parse": true}}
 	s2n := p.Func(p.ExpPkg, "stringsToNodes")
 	sat := p.Func(p.ExpPkg, "Satisfies")
